@@ -10,8 +10,15 @@ from fw import gz, gbool, glist, gopt
 CON, NON, ACK, RST = 0, 1, 2, 3
 MT = ["CON", "NON", "ACK", "RST"]
 EMPTY_ACK_DELAY = 100000
-PEERS = {0: "2001:db8::1", 1: "2001:db8::2", 2: "fe80::3", 100: "ff02::fd", 101: "ff05::1234"}
-LOCALS = {1: "2001:db8::100", 2: "ff02::fd"}
+# peers (remote socket address, scope id): < 100 unicast, >= 100 multicast groups; v4-mapped and scoped link-local forms included
+PEERS = {0: "2001:db8::1", 1: "2001:db8::2", 2: "fe80::3", 3: "::ffff:192.0.2.9", 4: "fe80::4",
+         100: "ff02::fd", 101: "ff05::1234", 103: "::ffff:224.0.1.187", 104: "ff02::1"}
+PEER_SCOPE = {4: 1, 104: 1}
+# local addresses (pktinfo) a datagram was received on: 2 and >= 100 are multicast groups, the others unicast
+LOCALS = {1: "2001:db8::100", 2: "ff02::fd", 3: "::ffff:192.0.2.7", 5: "fe80::5", 102: "::ffff:224.0.1.187", 106: "ff05::fd", 107: "::ffff:239.255.255.250"}
+LOCAL_IF = {5: 1, 2: 1}
+def mc_local(local): return local == 2 or local >= 100
+UNI_LOCALS = [1, 1, 1, 3, 5]; MC_LOCALS = [2, 2, 102, 106, 107]
 PATHS = {0: "slow", 1: "fast", 2: "absent", 3: "boom"}
 
 
@@ -22,8 +29,8 @@ _IFACE = _Iface()
 
 def mk_remote(peer, local):
     from aiocoap.transports import udp6
-    pktinfo = None if local == 0 else udp6._in6_pktinfo.pack(socket.inet_pton(socket.AF_INET6, LOCALS[local]), 0)
-    return udp6.UDP6EndpointAddress((PEERS[peer], 5683, 0, 0), _IFACE, pktinfo=pktinfo)
+    pktinfo = None if local == 0 else udp6._in6_pktinfo.pack(socket.inet_pton(socket.AF_INET6, LOCALS[local]), LOCAL_IF.get(local, 0))
+    return udp6.UDP6EndpointAddress((PEERS[peer], 5683, 0, PEER_SCOPE.get(peer, 0)), _IFACE, pktinfo=pktinfo)
 
 _RPEER = {v: k for k, v in PEERS.items()}
 _RLOCAL = None
@@ -218,8 +225,8 @@ def split_init(events):
 def gen_table(rng):
     """one cell of the reaction table, with a random context before and a random timing after"""
     t = rng.randrange(4); cls = rng.choice(list(CODE_CLASSES)); c = rng.choice(CODE_CLASSES[cls])
-    known = rng.random() < 0.5; local = 2 if rng.random() < 0.3 else 1
-    peer = rng.choice([0, 0, 1, 100]); evs = []; nreq = 0
+    known = rng.random() < 0.5; local = rng.choice(MC_LOCALS) if rng.random() < 0.3 else rng.choice(UNI_LOCALS)
+    peer = rng.choice([0, 0, 1, 3, 4, 100, 103, 104]); evs = []; nreq = 0
     if rng.random() < 0.3:   # unrelated traffic first
         evs.append(["request", rng.choice([1, 2]), rng.choice([None, 0, 1]), False]); nreq += 1
     tok = [rng.randrange(256) for _ in range(rng.choice([0, 1, 1, 2, 8]))]
@@ -244,7 +251,7 @@ def gen_table(rng):
 
 def gen_piggy(rng):
     """CON/NON request to the slow resource; the handler answers at a chosen instant around EMPTY_ACK_DELAY"""
-    peer = rng.choice([0, 1, 100]); local = rng.choice([1, 1, 2]); t = rng.choice([CON, CON, CON, NON])
+    peer = rng.choice([0, 1, 3, 4, 100, 103]); local = rng.choice(UNI_LOCALS + UNI_LOCALS + MC_LOCALS); t = rng.choice([CON, CON, CON, NON])
     tok = [rng.randrange(256) for _ in range(rng.choice([0, 1, 2, 4]))]; mid = rng.randrange(65536)
     nr = rng.choice(NR_VALUES); evs = [["recv", peer, local, W(t, rng.choice([1, 2, 4, 5]), mid, tok, 0, nr)]]
     d = rng.choice(BOUNDARY_WAITS + [99999, 100000, 100000])
@@ -266,7 +273,7 @@ def gen_scenario(rng):
     evs = []; slow = 0; nreq = 0
     toks = [[], [1], [2], [1, 2]]
     for _ in range(rng.randrange(4, 22)):
-        k = rng.random(); peer = rng.choice([0, 0, 1, 100]); local = 1 if rng.random() < 0.8 else 2
+        k = rng.random(); peer = rng.choice([0, 0, 1, 100]); local = rng.choice(UNI_LOCALS) if rng.random() < 0.8 else rng.choice(MC_LOCALS)
         if k < 0.3:
             t = rng.choice([CON, CON, NON]); c = rng.choice([1, 1, 2, 4, 9]); path = rng.choice([0, 0, 0, 1, 2, 3])
             evs.append(["recv", peer, local, W(t, c, rng.randrange(1, 7), rng.choice(toks), path, rng.choice(NR_VALUES))])
@@ -328,13 +335,53 @@ def gen_wrap(rng):
         else: evs += [["wait", 100000], ["fire"], ["respond", rng.randrange(0, slow + 1), 69, None, [1]]]
     return evs
 
+def gen_addr(rng):
+    """packed peer / local addresses for the udp6 multicast flags: every form that could be mistaken (v4-mapped, v4-compatible,
+    scoped link-local, boundary octets 223/224/239/240, first byte 0xfe/0xff)"""
+    def one():
+        k = rng.random(); rb = lambda n: [rng.randrange(256) for _ in range(n)]
+        a = rng.choice([223, 224, 225, 238, 239, 240, 0, 10, 127, 192, 255])
+        if k < 0.15: return [255, rng.choice([0, 1, 2, 5, 14, 255])] + rb(14)
+        if k < 0.4: return [0] * 10 + [255, 255, a] + rb(3)
+        if k < 0.5: return [0] * 12 + [a] + rb(3)                       # v4-compatible, not mapped
+        if k < 0.6: return [0] * 10 + [255, rng.choice([254, 0])] + [a] + rb(3)   # almost mapped
+        if k < 0.7: return [254, 128] + [0] * 6 + rb(8)
+        if k < 0.8: return [0x20, 0x01, 0x0d, 0xb8] + rb(12)
+        if k < 0.9: return [rng.choice([254, 255, 0, 239, 224])] + rb(15)
+        return rb(16)
+    return {"peer": one(), "scope": rng.choice([0, 0, 1, 77]), "local": one(), "ifidx": rng.choice([0, 1, 9])}
+
+def packed_mc(b):    # the independent rule: ff00::/8 and ::ffff:224.0.0.0/100 (= 224.0.0.0/4 mapped), nothing else
+    return b[0] == 0xFF or (b[:12] == [0] * 10 + [255, 255] and 224 <= b[12] <= 239)
+
+def addr_impl(inp):
+    from aiocoap.transports import udp6
+    peer = socket.inet_ntop(socket.AF_INET6, bytes(inp["peer"]))
+    a = udp6.UDP6EndpointAddress((peer, 5683, 0, inp["scope"]), _IFACE, pktinfo=udp6._in6_pktinfo.pack(bytes(inp["local"]), inp["ifidx"]))
+    def tri(f):
+        try: return bool(f())
+        except Exception as e: return "exn:" + type(e).__name__
+    resp = tri(lambda: a.as_response_address().pktinfo is not None)
+    same = tri(lambda: a.as_response_address() == a and a.as_response_address().sockaddr == a.sockaddr)
+    return {"mc": tri(lambda: a.is_multicast), "mcl": tri(lambda: a.is_multicast_locally), "keeps": resp, "same_peer": same}
+
+def addr_oracle(inp, res):
+    if "harness_exception" in res: return ("C10:crash:" + str(res.get("where")), str(res))
+    what = "peer %s local %s" % (bytes(inp["peer"]).hex(), bytes(inp["local"]).hex())
+    if res["mc"] != packed_mc(inp["peer"]): return ("C10:is-multicast-wrong", what + ": is_multicast = %r" % (res["mc"],))
+    if res["mcl"] != packed_mc(inp["local"]): return ("C10:is-multicast-locally-wrong", what + ": is_multicast_locally = %r" % (res["mcl"],))
+    if res["keeps"] != (not packed_mc(inp["local"])):
+        return ("C10:multicast-source-address" if packed_mc(inp["local"]) else "C10:response-address-drops-unicast-source", what + ": as_response_address keeps pktinfo = %r" % (res["keeps"],))
+    if res["same_peer"] is not True: return ("C10:response-address-other-peer", what)
+    return None
+
 def table_cells():
     """the full finite table, deterministic: type x code class x token known x received on multicast x handler/No-Response"""
     for t in range(4):
         for cls, codes in CODE_CLASSES.items():
             for c in (codes[0], codes[-1]):
                 for known in (False, True):
-                    for local in (1, 2):
+                    for local in (1, 2, 3, 5, 102, 106):
                         variants = [(0, None), (0, 26), (1, None), (1, 2), (2, 8), (3, 16)] if cls == "request" else [(0, None)]
                         for path, nr in variants:
                             evs = []; tok = [9, 9]; mid = 4242
@@ -375,13 +422,18 @@ class C10(fw.Property):
     rule = ("streams: table = one cell of type x code class x token known x unicast/multicast x handler/No-Response with random context and timing; "
             "cells = the full table enumerated; piggy = request to a slow handler answered around EMPTY_ACK_DELAY (99999/100000/100001 us, timer before/after); "
             "scenario = adversarial interleavings over small mid/token spaces (duplicates, token reuse, overriding requests, backlog, give-up); "
+            "addr = packed peer / local addresses (ff00::/8, v4-mapped 223/224/239/240 boundaries, v4-compatible, almost-mapped, scoped link-local, random) through the real "
+            "UDP6EndpointAddress.is_multicast / is_multicast_locally / as_response_address against Model.packed_is_multicast and the rule 'ff00::/8 or mapped 224.0.0.0/4, nothing else'; "
             "wrap = scripts starting at message-id 65533..65535 / token 2^64-3..2^64-1 so that both counters wrap with messages in flight; "
             "giveup = an unacknowledged CON of ours retransmitted until give-up with a multicast request pending / a backlogged CON / a running handler. "
             "Non-trivial = at least one datagram was sent by the stack; distinct by full script.")
     trusted_base = ["hand-written Model/C10.v (validated by all correspondence streams (cells, table, piggy, scenario, giveup, corpus) on every run)",
                     "harness: virtual-time loop (ideal timers), recording message interface, random pinned (mid0 = token0 = 0, ACK_TIMEOUT factor 1.0)"]
-    assumptions = ["handlers answer once (no observe on the server side); shutdown and transport errors are C18's; blockwise not exercised",
-                   "two exchanges of ours with the same (remote, message-id) are never alive at once (needs 65536 messages within one exchange lifetime); the wrap of the counter itself is modelled and exercised"]
+    assumptions = ["handlers answer once (no observe on the server side) and do not preset mtype / mid on their response; blockwise not exercised",
+                   "no Context.shutdown and no transport error (MessageManager.dispatch_error) in the histories: the model has no such events, 'exactly once' is a theorem about histories without them (a CON request received < EMPTY_ACK_DELAY before shutdown is not acknowledged by design, messagemanager.py:85-89; C18)",
+                   "time: Wait never passes a due handle and a due handle may stay unfired while datagrams are processed (model and harness alike); clock jumps over several handles (loop.advance) are not exercised; the < d / d <= boundary of the piggy-back clause is as good as simloop.VLoop.fire_next",
+                   "two exchanges of ours with the same (remote, message-id) are never alive at once (needs 65536 messages within one exchange lifetime); the wrap of the counter itself is modelled and exercised",
+                   "'fresh message ID' = the next value of our own 16-bit counter; it may coincide numerically with the peer's message ID of the request (independent spaces)"]
 
     def gen_cases(self, tier, rng, n):
         if tier == "thorough":
@@ -394,6 +446,8 @@ class C10(fw.Property):
             m = k % 10
             if m < 4: yield "table", gen_table(rng)
             elif m < 7: yield "piggy", gen_piggy(rng)
+            elif m == 8 and k % 20 == 8:
+                for _ in range(8): yield "addr", gen_addr(rng)
             elif m < 9: yield "scenario", gen_scenario(rng)
             elif k % 20 == 9: yield "wrap", gen_wrap(rng)
             else: yield "giveup", gen_giveup(rng)
@@ -401,17 +455,23 @@ class C10(fw.Property):
     def setup(self):
         warnings.simplefilter("ignore")
     def impl(self, stream, inp):
+        if stream == "addr": return addr_impl(inp)
         return run_script(inp)
     def model(self, stream, inp):
+        if stream == "addr": return "address_flags %s %s" % (fw.gbytes(inp["peer"]), fw.gbytes(inp["local"]))
         mid0, token0, evs = split_init(inp)
         return "snd (run (init %s %s) %s)" % (gz(mid0), gz(token0), glist([g_event(e) for e in evs]))
     def decode(self, stream, inp, parsed):
+        if stream == "addr":
+            mc, mcl, keeps = fw.plain(parsed); return {"mc": mc, "mcl": mcl, "keeps": keeps, "same_peer": True}
         pre = [{"t": 0, "send": [], "h": [], "c": [], "x": []}] if inp and inp[0][0] == "init" else []
         return pre + [d_outputs(t, outs) for (t, outs) in fw.plain(parsed)]
     def nontrivial(self, stream, inp, res):
+        if stream == "addr": return fw.jdump(inp) if isinstance(res, dict) and (res.get("mc") is True or res.get("mcl") is True or inp["peer"][:10] == [0] * 10) else None
         if isinstance(res, list) and any(r["send"] for r in res): return fw.jdump(inp)
         return None
     def oracle(self, stream, inp, res):
+        if stream == "addr": return addr_oracle(inp, res)
         return oracle(inp, res)
 
 
@@ -429,7 +489,7 @@ def oracle(evs, res):
             return (sig, "event %d %r: exception %s reached the event loop" % (i, ev, r["x"]))
         for s in r["send"]:
             if s[0] >= 100 and s[2] == CON: return ("C10:con-to-multicast", "event %d %r: confirmable message %r sent to a multicast destination" % (i, ev, s))
-            if s[1] == 2: return ("C10:multicast-source-address", "event %d %r: %r sent with the multicast address it was received on as source" % (i, ev, s))
+            if mc_local(s[1]): return ("C10:multicast-source-address", "event %d %r: %r sent with the multicast address it was received on as source" % (i, ev, s))
     token0 = evs[0][2] if evs and evs[0][0] == "init" else 0
     pending = {}      # q -> (peer or None, token, observe): oracle's own account of outstanding client requests
     seen = {}         # (peer, mid) -> (time first seen, replies sent for it) for request-coded messages (deduplication, RFC 7252 4.5)
@@ -452,7 +512,7 @@ def oracle(evs, res):
                 if s[2] == RST: return ("C10:unsolicited-reset", "event %d %r: RST %r sent without an incoming message" % (i, ev, s))
             continue
         _, peer, local, w = ev; t, c, mid, tok = w["t"], w["c"], w["mid"], w["tok"]; cls = _cls(c)
-        where = "event %d: %s %s mid %d token %r from peer %d (%s)" % (i, MT[t], cls, mid, tok, peer, "multicast" if local == 2 else "unicast")
+        where = "event %d: %s %s mid %d token %r from peer %d (%s)" % (i, MT[t], cls, mid, tok, peer, "multicast" if mc_local(local) else "unicast")
         if cls == "request":
             key = (peer, mid)
             if key in ambiguous: reqs.append({"cut": i, "peer": peer, "mid": mid, "tok": tok}); continue
@@ -465,7 +525,7 @@ def oracle(evs, res):
             seen[key] = (now, None)
         if cls == "empty":
             if t == CON:
-                if replies != [[peer, 0 if local == 2 else local, RST, 0, mid, [], [], []]] or len(r["send"]) != 1:
+                if replies != [[peer, 0 if mc_local(local) else local, RST, 0, mid, [], [], []]] or len(r["send"]) != 1:
                     return ("C10:ping-not-reset", where + ": expected exactly one RST, sent %r" % r["send"])
             elif t == NON:
                 if r["send"] or r["h"] or r["c"]: return ("C10:unexpected-reaction:NON/empty", where + ": %r" % r)
@@ -484,13 +544,13 @@ def oracle(evs, res):
                 if q is None: q = next((q for q, (p, tk, o) in pending.items() if tk == tok and p is None), None)
                 if q is not None:
                     if not (pending[q][2] and w.get("obs") is not None): pending.pop(q)
-                    want = [[peer, 0 if local == 2 else local, ACK, 0, mid, [], [], []]] if t == CON else []
+                    want = [[peer, 0 if mc_local(local) else local, ACK, 0, mid, [], [], []]] if t == CON else []
                     if replies != want:
                         return ("C10:con-response-not-acked" if t == CON else "C10:unexpected-reply:%s/response-known" % MT[t], where + " matches request %d: expected %r, sent %r" % (q, want, replies))
                 else:
-                    want = [[peer, local, RST, 0, mid, [], [], []]] if (t == CON and local != 2) else []
+                    want = [[peer, local, RST, 0, mid, [], [], []]] if (t == CON and not mc_local(local)) else []
                     if replies != want:
-                        sig = ("C10:unknown-con-response-not-reset" if local != 2 else "C10:reset-for-multicast") if t == CON else "C10:unexpected-reply:%s/response-unknown" % MT[t]
+                        sig = ("C10:unknown-con-response-not-reset" if not mc_local(local) else "C10:reset-for-multicast") if t == CON else "C10:unexpected-reply:%s/response-unknown" % MT[t]
                         return (sig, where + " matches no request: expected %r, sent %r" % (want, replies))
         else:
             if replies or r["h"] or any(c[0] == "deliver" for c in r["c"]) or (t in (CON, NON) and (r["send"] or r["c"])):
@@ -511,7 +571,9 @@ def oracle(evs, res):
                 for s in res[j]["send"] if s[2] == ACK and s[0] == peer and s[4] == mid]
         # this request itself reuses the token of an earlier, still unacknowledged CON request: its answer may travel in that one's ACK
         tainted = any("i" in R0 and R0["i"] < i and R0["con"] and R0["peer"] == peer and R0["tok"] == tok and
-                      not any(s[2] == ACK and s[0] == peer and s[4] == R0["mid"] for j in range(R0["i"], i) for s in res[j]["send"]) for R0 in reqs)
+                      not any(s[2] == ACK and s[0] == peer and s[4] == R0["mid"] for j in range(R0["i"], i) for s in res[j]["send"]) for R0 in reqs) or \
+                  any("cut" in R0 and R0["cut"] < i and R0["peer"] == peer and R0.get("tok") == tok and
+                      not any(s[2] == ACK and s[0] == peer and s[4] == R0["mid"] for j in range(R0["cut"], i) for s in res[j]["send"]) for R0 in reqs)   # unjudged boundary requests count too
         if not R["con"]:
             if acks: return ("C10:non-request-acked", where + " was acknowledged: %r" % (acks,))
         else:
@@ -538,7 +600,7 @@ def oracle(evs, res):
                 ignored = ("C10:no-response-ignored-on-error-response" if errpath else "C10:no-response-ignored",
                            where + " carried No-Response %r but %r was sent" % (nr_eff, sent))
                 if any(x[2] == ACK for x in sent): return ignored      # the suppressed response itself travelled in the ACK
-                if lost and R["local"] == 2:
+                if lost and mc_local(R["local"]):
                     return ("C10:no-response-lost-ack:received-on-multicast", where + " (received on a multicast address): response suppressed, but no empty ACK sent: %r" % (res[j]["send"],))
                 if sent:
                     return ("C10:no-response-ignored-on-error-response" if errpath else "C10:no-response-ignored",
@@ -556,8 +618,37 @@ def oracle(evs, res):
                 if s[2] == RST: return ("C10:response-in-reset", where + " answered with %r" % (s,))
             if R["con"] and not acked_before and (o3 is None or o3 > j) and j < end and not any(s[2] == ACK and s[4] == mid for s in sent):
                 return ("C10:piggyback-missed", where + ": answer ready at %d us (request at %d us) but not piggy-backed: %r" % (res[j]["t"], R["t0"], res[j]["send"]))
-        if R["con"] and not acks and res[end - 1]["t"] > R["t0"] + EMPTY_ACK_DELAY and (o3 is None or o3 >= end or res[o3]["t"] > R["t0"] + EMPTY_ACK_DELAY):
-            return ("C10:con-request-never-acked", where + " received at %d us is still unacknowledged at %d us" % (R["t0"], res[end - 1]["t"]))
+            # the separate response (after the empty ACK) / the answer to a NON request: exactly one datagram with the request's token and the
+            # handler's code, in the step in which the answer is ready — unless a CON of ours to that peer is still unacknowledged (NSTART: it
+            # may wait in the backlog, C14) —, under a message ID that no other message of ours to that peer carries
+            if (acked_before or not R["con"]) and (o3 is None or o3 > j):
+                waiting = set()
+                for jj in range(j):
+                    for x in res[jj]["send"]:
+                        if x[0] == peer and x[2] == CON: waiting.add(x[4])
+                    if evs[jj][0] == "recv" and evs[jj][1] == peer and evs[jj][3]["t"] in (ACK, RST): waiting.discard(evs[jj][3]["mid"])
+                plain_sent = [x for x in sent if x[2] in (CON, NON)]
+                if not plain_sent and not waiting:
+                    return ("C10:separate-response-missing", where + ": answer %d ready in event %d, but no CON/NON datagram with token %r and that code was sent: %r" % (code, j, tok, res[j]["send"]))
+                if len(plain_sent) > 1: return ("C10:separate-response-duplicated", where + ": %r" % (plain_sent,))
+                for x in plain_sent:
+                    if x[2] != (NON if (not R["con"] or peer >= 100) else CON):
+                        return ("C10:separate-response-wrong-type", where + " answered separately with %r" % (x,))
+                    for jj in range(len(evs)):
+                        if abs(res[jj]["t"] - res[j]["t"]) >= LIFETIME: continue
+                        for y in res[jj]["send"]:
+                            if y[0] == peer and y[2] in (CON, NON) and y[4] == x[4] and y[2:] != x[2:]:
+                                return ("C10:separate-response-mid-not-fresh", where + ": separate response %r shares its message ID with %r (event %d)" % (x, y, jj))
+        if R["con"] and not acks and res[end - 1]["t"] > R["t0"] + EMPTY_ACK_DELAY:
+            reused = o3 is not None and o3 < end and res[o3]["t"] <= R["t0"] + EMPTY_ACK_DELAY
+            if not reused:
+                return ("C10:con-request-never-acked", where + " received at %d us is still unacknowledged at %d us" % (R["t0"], res[end - 1]["t"]))
+            R3 = next((x for x in reqs if x.get("i") == o3), None)
+            if R3 is not None and R3["con"]:      # O3: messagemanager.py _process_request cancels the pending ACK when the token is reused by a CON request
+                return ("C10:con-request-never-acked:token-reused-by-con-request", where + ": the peer reused the token in the CON request of event %d before this one was acknowledged; "
+                        "it is still unacknowledged at %d us" % (o3, res[end - 1]["t"]))
+            if R3 is not None:
+                return ("C10:con-request-never-acked", where + " (token reused by the NON request of event %d) is still unacknowledged at %d us" % (o3, res[end - 1]["t"]))
         for (j, tj, s) in acks:
             if o3 is not None and j >= o3: continue
             if s[3] == 0:
